@@ -573,7 +573,9 @@ def finish(prop, tier, obs, results, vio_out, known, undecided, t_start, wd):
         "property_id": prop,
         "tier": tier,
         "seed": int(os.environ.get("VERIF_SEED", "0") or 0),
-        "level": pinfo.get("level", "proof"),
+        # proof-level only when every complete (unbounded / full-domain) obligation of this run is discharged;
+        # bounded stand-ins are reported separately and never counted as proved
+        "level": "proof" if (n_ob >= 1 and n_dis == n_ob) else "other",
         "coverage": {
             "obligations": n_ob,
             "discharged": n_dis,
@@ -583,7 +585,7 @@ def finish(prop, tier, obs, results, vio_out, known, undecided, t_start, wd):
             "checker_cmd": "cargo kani -p <crate> -Z function-contracts -Z stubbing --exact --harness <h> (CBMC 6.11 + CaDiCaL) on a scratch copy of /repo's working tree; verus <extracted>.rs for Verus rows",
             "trusted_base": ["rustc/kani-compiler 0.68 codegen", "CBMC 6.11 + CaDiCaL", "Verus 0.2026.09.13 + Z3 (Verus rows)",
                              "Kani models of std/alloc", "no-op tracing stub (/verif/stubs/tracing)"],
-            "explanation": pinfo.get("explanation", ""),
+            "explanation": pinfo.get("explanation", "") + " | this run: %d/%d complete proof obligations discharged, %d/%d bounded stand-ins passed (bounded ones are labelled with their bound in obligation_table and are not counted as proved), %d undecided, %d violated" % (n_dis, n_ob, b_dis, len(bounded), len(undecided), len(vio_out)),
             "functions_under_contract": fns,
             "obligation_table": [dict(id=o["id"], kind=o["kind"], backend=results.get(o["id"], {}).get("backend", o["backend"]),
                                       status=results.get(o["id"], {}).get("status"),
